@@ -10,7 +10,7 @@ func init() {
 	register("C08", &propSpec{
 		technique:  "static analysis: SSA CFG acquire/release pairing (typestate) over every function of the module; effect inventory of configuration loads over the module call graph; lifecycle trace tables (E10) for undo-on-failure",
 		run:        runC08,
-		decided:    "R1 every mutex acquired anywhere in the module is released on every exit of the acquiring function (a leaked lock makes the next load block forever). Since round 4: R3 as a table of startServers: a failing start closes every socket opened or rebuilt so far. R5 also: cloneEventHooks / restoreEventHooks evaluated on a modelled registry leave it exactly as it was. Since round 6: R6 names given to RegisterEventHook at configuration time derive from a per-call unique source (the hooks of a load that failed later stay registered, so a repeatable name would make the next valid load panic).",
+		decided:    "R1 every mutex acquired anywhere in the module is released on every exit of the acquiring function (a leaked lock makes the next load block forever). Since round 4: R3 as a table of startServers: a failing start closes every socket opened or rebuilt so far. R5 also: cloneEventHooks / restoreEventHooks evaluated on a modelled registry leave it exactly as it was. Since round 6: R6 names given to RegisterEventHook at configuration time derive from a per-call unique source (the hooks of a load that failed later stay registered, so a repeatable name would make the next valid load panic). Since round 8: R7 no function registered as a shutdown callback is also a restart-failed callback (those run on the instance that keeps serving).",
 		notDecided: "latency bound in seconds; behavioural equality with a fresh process; OS-level socket tables.",
 	})
 }
